@@ -43,6 +43,7 @@ import (
 	"github.com/theparanoids/ysshra/common"
 	"github.com/theparanoids/ysshra/config"
 	"github.com/theparanoids/ysshra/csr"
+	"github.com/theparanoids/ysshra/csr/transid"
 	"github.com/theparanoids/ysshra/gensign"
 	"github.com/theparanoids/ysshra/keyid"
 	"github.com/theparanoids/ysshra/message"
@@ -878,6 +879,25 @@ func zvgGenLogName(r *mrand.Rand) string {
 	}
 }
 
+// zvgGenConvName: a conventional account / host label [a-z][a-z0-9._-]*
+func zvgGenConvName(r *mrand.Rand) string {
+	const first, rest = "abcdefghijklmnopqrstuvwxyz", "abcdefghijklmnopqrstuvwxyz0123456789abcdefghijklmnopqrstuvwxyz._-"
+	n := 2 + r.Intn(10)
+	b := []byte{first[r.Intn(len(first))]}
+	for i := 1; i < n; i++ {
+		b = append(b, rest[r.Intn(len(rest))])
+	}
+	s := string(b)
+	if strings.HasSuffix(s, ".pub") {
+		s += "x"
+	}
+	return s
+}
+
+func zvgGenIP4(r *mrand.Rand) string {
+	return fmt.Sprintf("%d.%d.%d.%d", 1+r.Intn(223), r.Intn(256), r.Intn(256), 1+r.Intn(254))
+}
+
 func zvgGenIP(r *mrand.Rand) string {
 	if r.Intn(3) == 0 {
 		return fmt.Sprintf("2001:db8:%x::%x", r.Intn(65536), 1+r.Intn(65535))
@@ -981,15 +1001,25 @@ func (g *zvgGInst) runOne(ri int, run *zvgGRun, pre []zvgGID) (*zvgGRec, []zvgGI
 			}
 		}
 	}
-	cv.ln = pick(run.Ln, func() string { return zvgGenLogName(r) })
+	// two runs of three use fully conventional values (ASCII account / user / host names, as every deployment has them);
+	// the others arbitrary UTF-8 with JSON / shell metacharacters
+	conv := r.Intn(3) != 0
+	genLn, genRu, genRh := func() string { return zvgGenLogName(r) }, func() string { return zvgGenText(r, true) }, func() string { return zvgGenText(r, false) }
+	if conv {
+		genLn = func() string { return zvgGenConvName(r) }
+		genRu = genLn
+		genRh = func() string {
+			return zvgGenConvName(r) + []string{".example.com", ".corp.example.net", "", "-laptop.local"}[r.Intn(4)]
+		}
+	}
+	cv.ln = pick(run.Ln, genLn)
 	if run.Ru == "=ln" {
 		cv.ru = cv.ln // the client declares the login name itself (the common case in practice)
 	} else {
-		cv.ru = pick(run.Ru, func() string { return zvgGenText(r, true) })
+		cv.ru = pick(run.Ru, genRu)
 	}
-	cv.rh = pick(run.Rh, func() string { return zvgGenText(r, false) })
+	cv.rh = pick(run.Rh, genRh)
 	cv.ip = pick(run.IP, func() string { return zvgGenIP(r) })
-	cv.tid = pick(run.Tid, func() string { return zvgGenText(r, false) })
 	if strings.ContainsAny(cv.ln, "/\x00") || strings.ContainsAny(cv.ru, "/\x00") {
 		return nil, nil, fmt.Errorf("login / user names must be file names")
 	}
@@ -1247,18 +1277,42 @@ func (g *zvgGInst) runOne(ri int, run *zvgGRun, pre []zvgGID) (*zvgGRec, []zvgGI
 		hs = append(hs, &zvgRecH{inner: inner, idx: i + 1, rc: rc, panicAt: hF[i+1]})
 	}
 	ca := &zvgStubCA{ca: g.ca, rc: rc, ncert: run.Ncert, plain: run.PlainCA, flts: caF, serial: &g.serial, plainPK: g.O.Pub}
-	param := &csr.ReqParam{
-		NamespacePolicy:  common.NamespacePolicy(run.Ns),
-		HandlerName:      "Regular",
-		ClientIP:         cv.ip,
-		LogName:          cv.ln,
-		ReqUser:          cv.ru,
-		ReqHost:          cv.rh,
-		TransID:          cv.tid,
-		SSHClientVersion: version.New(8, 1),
-		Attrs: &message.Attributes{Username: cv.ru, Hostname: cv.rh, SSHClientVersion: "8.1", HardKey: run.Hard,
-			CAPubKeyAlgo: zvgX509Algo(run.Algo)},
+	// ---- request parameters: built the way production builds them, csr.NewReqParam over the forced-command environment
+	// (SSH_ORIGINAL_COMMAND in the JSON or the legacy format, LOGNAME, SSH_CONNECTION, argv); a hand-built value only
+	// when NewReqParam cannot produce the scenario
+	attrs := &message.Attributes{IfVer: 7, Username: cv.ru, Hostname: cv.rh, SSHClientVersion: "8.1", HardKey: run.Hard,
+		CAPubKeyAlgo: zvgX509Algo(run.Algo)}
+	var cmd string
+	if conv && run.Algo == 0 && r.Intn(2) == 0 {
+		attrs.IfVer = 6
+		cmd, _ = attrs.MarshalLegacy()
+	} else {
+		cb, _ := json.Marshal(attrs)
+		cmd = string(cb)
 	}
+	env := map[string]string{"SSH_ORIGINAL_COMMAND": cmd, "LOGNAME": cv.ln,
+		"SSH_CONNECTION": fmt.Sprintf("%s %d %s 22", cv.ip, 1024+r.Intn(64000), zvgGenIP4(r))}
+	param, perr := csr.NewReqParam(func(k string) string { return env[k] }, func() []string { return []string{"/usr/bin/gensign", run.Ns, HandlerName} })
+	if perr != nil || param == nil || param.Attrs == nil || param.LogName != cv.ln || param.ReqUser != cv.ru || param.ReqHost != cv.rh ||
+		param.ClientIP != cv.ip || param.Attrs.HardKey != run.Hard || int(param.Attrs.CAPubKeyAlgo) != run.Algo ||
+		string(param.NamespacePolicy) != run.Ns {
+		param = &csr.ReqParam{
+			NamespacePolicy:  common.NamespacePolicy(run.Ns),
+			HandlerName:      HandlerName,
+			ClientIP:         cv.ip,
+			LogName:          cv.ln,
+			ReqUser:          cv.ru,
+			ReqHost:          cv.rh,
+			TransID:          transid.Generate(),
+			SSHClientVersion: version.New(8, 1),
+			Attrs: &message.Attributes{IfVer: 7, Username: cv.ru, Hostname: cv.rh, SSHClientVersion: "8.1", HardKey: run.Hard,
+				CAPubKeyAlgo: zvgX509Algo(run.Algo), TouchlessSudo: &message.TouchlessSudo{}},
+		}
+	}
+	if t, ok := zvgUnhex(run.Tid); ok {
+		param.TransID = t
+	}
+	cv.tid = param.TransID // this request's transaction id, generated on the server side
 	// ---- the run ----
 	type res struct {
 		err error
